@@ -45,8 +45,9 @@ ASSUMPTIONS = [
   "property demands a non-zero status for it",
   "an unknown --filter name (tt.py logs 'Unknown filter' and skips it) is exercised and labelled but not asserted: the property names "
   "unsupported types and unknown sub-commands as errors, not unknown filters",
-  "file-takes-precedence is only checked for two configurations with identical module/key sets, so that 'replace' and 'merge with file "
-  "priority' readings agree",
+  "file-takes-precedence: the file replaces the inline dictionary as a whole (tt convert --help: '--config ... Overridden by "
+  "--config_file', '--config_file ... Overrides --config'), so sections and keys present only inline must have no effect (labelled "
+  "shapes inline-only-section / inline-only-key next to same-keys)",
 ]
 
 CANON_ORDER = ["input", "output", "itype", "otype", "filters", "config", "config_file"]
@@ -197,6 +198,7 @@ def shrink_command(case):
 def check_precedence(case, res):
   with tempfile.TemporaryDirectory(prefix="vt-c19-") as root:
     label_command(case, res)
+    res.label("precedence:" + case.get("shape", "same-keys"))
     inline = case["spec"]["inline_config"]
     ok, exp = judge_conversion(case, res, root, "precedence", case.get("oracle_first", False), inline=inline)
     if exp is not None:
@@ -214,8 +216,27 @@ def _precedence_cases(draw):
   cfg = {m: v for m, v in (cfg or {}).items() if v}
   if not cfg:
     cfg = {"general": {"document_lang": ch.choice(g.DOC["general"]["document_lang"]["valid"])}}
-  spec.update(config=cfg, inline_config=g.vary_config(ch, cfg), config_mode="both")
-  return dict(g.build_command(spec), clause="precedence", oracle_first=ch.boolean())
+  inline = g.vary_config(ch, cfg)
+  # "--config_file ... Overrides --config" (tt convert --help): the inline dictionary is not consulted at all when a file is given,
+  # so a module section or a key that only the inline configuration holds must have no effect
+  shape = ch.choice(["same-keys", "same-keys", "inline-only-section", "inline-only-key"])
+  if shape == "inline-only-section" and len(cfg) >= 2:
+    cfg = dict(cfg)
+    del cfg[ch.choice(sorted(cfg))]
+  elif shape == "inline-only-key":
+    multi = sorted(m for m in cfg if len(cfg[m]) >= 2)
+    if multi:
+      m = ch.choice(multi)
+      cfg = dict(cfg, **{m: dict(cfg[m])})
+      del cfg[m][ch.choice(sorted(cfg[m]))]
+      if m == "imsc_writer" and cfg[m].get("time_format") in ("frames", "clock_time_with_frames") and "fps" not in cfg[m]:
+        cfg[m]["time_format"] = "clock_time"
+    else:
+      shape = "same-keys"
+  else:
+    shape = "same-keys"
+  spec.update(config=cfg, inline_config=inline, config_mode="both")
+  return dict(g.build_command(spec), clause="precedence", oracle_first=ch.boolean(), shape=shape)
 
 
 def precedence_strategy(_tier):
@@ -585,7 +606,7 @@ PARTS = {
                      "filters:vt_upper,vt_append", "config-mode:none", "config-mode:inline", "config-mode:file", "config-mode:both-same",
                      "outcome:converted", "outcome:library-rejects", "nontrivial")),
   "precedence": Part("precedence", check_precedence, strategy=precedence_strategy, n=(480, 8000), shrinker=shrink_command,
-                     required_labels=("precedence:observable", "config-mode:both")),
+                     required_labels=("precedence:observable", "config-mode:both", "precedence:inline-only-section", "precedence:inline-only-key")),
   "errors": Part("errors", check_errors, chunks=errors_chunks, cases=errors_iter,
                  required_labels=tuple("errors:" + s for s in sorted({s for s, _ in ERROR_SCENARIOS})) + ("errors:via-subprocess",)),
   "config_values": Part("config_values", check_config_value, chunks=config_chunks, cases=config_iter,
